@@ -135,7 +135,8 @@ def _judge(res: core.Res, spec: project.Spec, label: str, dump: Dict[str, Any], 
             elif why_must:
                 res.c('must_resolve_checked')
 
-        def walk_ns(ctx: Any, ctxname: str, ns: Dict[str, Any], globals_ns: Optional[Dict[str, Any]], depth: int) -> None:
+        def walk_ns(ctx: Any, ctxname: str, ns: Dict[str, Any], globals_ns: Optional[Dict[str, Any]], depth: int,
+                    enclosing: Tuple[Dict[str, Any], ...] = ()) -> None:
             for n, info in ns.items():
                 if n.startswith('__') and n.endswith('__'):
                     continue
@@ -178,13 +179,25 @@ def _judge(res: core.Res, spec: project.Spec, label: str, dump: Dict[str, Any], 
                     if n in ns or (n.startswith('__') and n.endswith('__')) or n in ('_contextlib', '_noop', '_ctx', '_i', 'TYPE_CHECKING'):
                         continue
                     res.c('class_scope_queries')
+                    shadow = next((e[n] for e in reversed(enclosing) if n in e), None)
+                    if shadow is not None:
+                        # an enclosing class binds the same name: Python skips class scopes, pydoctor's lookup walks them
+                        res.c('enclosing_class_shadow_queries')
+                        exp_g, exp_s = _expected(info, n, varnames, bound_vars), _expected(shadow, n, varnames, bound_vars)
+                        try:
+                            got = ctx.resolveName(n)
+                        except Exception:  # noqa: BLE001
+                            got = None
+                        if got is not None and exp_g and exp_s and exp_g != exp_s and got.fullName() == exp_s:
+                            res.v('C04:wrong-object:nested-class-sees-enclosing-class-scope', f'{label}: in {ctxname}, {n!r} resolves to {exp_s} (bound in the enclosing class), Python binds it to the module global {exp_g}', name=n, **witness())
+                            continue
                     check(ctx, ctxname, n, _expected(info, n, varnames, bound_vars), None)
             # recurse into classes defined here
             for n, info in ns.items():
                 if info.get('kind') == 'class' and 'ns' in info and depth < 3:
                     c = ctx.contents.get(n)
                     if isinstance(c, model.Class):
-                        walk_ns(c, f'{ctxname}.{n}', info['ns'], rt['ns'], depth + 1)
+                        walk_ns(c, f'{ctxname}.{n}', info['ns'], rt['ns'], depth + 1, enclosing + ((ns,) if globals_ns is not None else ()))
 
         walk_ns(mod, full, rt['ns'], None, 0)
     if nontrivial:
